@@ -45,6 +45,27 @@ def scanFwd {β γ : Type} (f : Option β → γ → β) (parents : List Int) (a
     acc ++ [f par pa.2]
   (parents.zip args).foldl step []
 
+/-- depth of every link (roots 0), as `depth_fn` of `scan.tree` -/
+def depths (parents : List Int) : List Nat :=
+  scanFwd (fun (par : Option Nat) (_ : Unit) => match par with | none => 0 | some d => d + 1)
+    parents (parents.map fun _ => ())
+
+/-- Layer B: `scan.tree(sys, f, …, reverse=True)` (leaves to root) as the recursion it
+implements: `r i = h (carry i) (arg i)` where `carry i` is the sum of `r c` over the children
+`c` of `i` (zero for a childless link), **except** that links of the deepest level receive
+`none` (the python `y is None` on the first processed level). -/
+def scanRev {β γ : Type} [Zero β] [Add β] (h : Option β → γ → β) (parents : List Int)
+    (args : List γ) : List β :=
+  let n := parents.length
+  let ds := depths parents
+  let maxD := ds.foldl max 0
+  let step := fun (x : Nat × Int × γ) (st : List β × List β) =>
+    let carry : Option β := if ds.getD x.1 0 = maxD then none else some (st.1.getD x.1 0)
+    let r := h carry x.2.2
+    let sums' := if x.2.1 < 0 then st.1 else st.1.modify x.2.1.toNat (· + r)
+    (sums', r :: st.2)
+  (((List.range n).zip (parents.zip args)).foldr step (List.replicate n 0, [])).2
+
 section real
 variable {α : Type} [Zero α] [One α] [Add α] [Sub α] [Mul α] [Neg α] [Div α]
   [LT α] [DecidableLT α] [LE α] [DecidableLE α] [OfScientific α] [HasSqrt α] [HasTrig α]
